@@ -200,14 +200,14 @@ fn gen(seed: u64, family: &str, tier: Tier) -> Case {
     let mut kinds: Vec<&'static str> = vec![];
     for qid in 0..nq {
         let (mut q, _) = gen_query(&mut r, &w, &pc, qid, true);
-        if w.edge_oriented {
+        if w.edge_oriented && q.is_object() {
             let ne = w.ne().max(1) as u64;
             q["origin_edge"] = json!(r.below(ne));
             if q.get("destination_vertex").is_some() {
                 q["destination_edge"] = json!(r.below(ne));
             }
         }
-        if family == "malformed" && r.chance(0.6) {
+        if family == "malformed" && q.is_object() && r.chance(0.6) {
             let (mq, kind) = mutate(&mut r, &q, &w, &pc);
             kinds.push(kind);
             batch.push(mq);
